@@ -125,4 +125,29 @@ pub fn c01_client_keyboard<L: KeyboardLayout>(kb: &mut Keyboard<L, ScancodeSet2>
     (a, b)
 }
 
+//@ LEMMA C01/client_scancode_to_decoded_key
+/// real code, end to end: a Set 2 make code fed to a Keyboard yields the reference key's press, and processing that
+/// event yields exactly what the installed layout's denotation gives for that key under the current modifiers and mode
+pub fn c01_client_end_to_end<L: KeyboardLayout>(kb: &mut Keyboard<L, ScancodeSet2>, c: u8) -> (r: Option<DecodedKey>)
+    requires
+        old(kb).wf(),
+        old(kb).sc().ctx() == PrefixCtx::Start,
+        !is_prefix2(c),
+        c != 0x00 && c != 0xAA,
+        !gap_set2_plain(c),
+        ref_set2_plain(c).is_ok(),
+        !is_modifier_key(ref_set2_plain(c).unwrap()),
+    ensures
+        r == Some(old(kb).evd().lay().spec_map(ref_set2_plain(c).unwrap(), &old(kb).evd().mods(), old(kb).evd().mode())),
+        final(kb).evd().mods() == old(kb).evd().mods(),
+{
+    proof {
+        lemma_c01_sequences(c);
+    }
+    match kb.add_byte(c) {
+        Ok(Some(e)) => kb.process_keyevent(e),
+        _ => None,
+    }
+}
+
 } // mod verif_c01
